@@ -255,8 +255,13 @@ func runSequence(seq int) {
 	again := -1
 	viewNext := ""
 	pws := []string{"pw-one", "pw-two"}
+	// once in every sequence (steps 8-12): an encrypted bip44 wallet is made; while it is locked both of its chains grow (the
+	// node's own way: Service.Update without a password), a scan finds activity on the change chain only, and then its
+	// secrets are looked at with the right password
+	bipID := ""
 
 	for step := 0; step < 14; step++ {
+		forcedID, forcedKind, forcedChg, chgOnly, forceBip := "", "", -1, false, false
 		pre, _ := s.GetWallets()
 		prePr := projectAll(pre)
 		ids := []string{}
@@ -264,6 +269,9 @@ func runSequence(seq int) {
 			ids = append(ids, p.ID)
 		}
 		pick := func() string {
+			if forcedID != "" {
+				return forcedID
+			}
 			if len(ids) == 0 || rng.Intn(10) == 0 {
 				return "nope.wlt"
 			}
@@ -287,6 +295,20 @@ func runSequence(seq int) {
 		sameSeedNext := step == 7 && len(ids) > 0 && again < 0
 		if sameSeedNext {
 			k = 0
+		}
+		if again < 0 {
+			switch {
+			case step == 8:
+				k, forceBip = 0, true
+			case step == 9 && bipID != "":
+				k, forcedID, forcedKind, forcedChg = 20, bipID, "addr", 0
+			case step == 10 && bipID != "":
+				k, forcedID, forcedKind, forcedChg = 20, bipID, "addr", 1
+			case step == 11 && bipID != "":
+				k, forcedID, chgOnly = 9, bipID, true
+			case step == 12 && bipID != "":
+				k, viewNext = 18, bipID
+			}
 		}
 		switch {
 		case forcedRestart || (k == 19 && len(ids) > 0 && rng.Intn(2) == 0):
@@ -314,6 +336,17 @@ func runSequence(seq int) {
 					}
 				}
 			}
+			if forceBip {
+				var bips []seedInfo
+				for _, x := range seeds {
+					if x.typ == wallet.WalletTypeBip44 {
+						bips = append(bips, x)
+					}
+				}
+				if len(bips) > 0 {
+					si = bips[rng.Intn(len(bips))]
+				}
+			}
 			lastSeed := -1
 			for i, x := range seeds {
 				if x.typ == si.typ && x.seed == si.seed && x.pass == si.pass && x.xpub == si.xpub && len(x.keys) == len(si.keys) {
@@ -324,7 +357,7 @@ func runSequence(seq int) {
 			again = -1
 			id := fmt.Sprintf("w%d.wlt", nextID)
 			nextID++
-			if len(ids) > 0 && rng.Intn(6) == 0 {
+			if len(ids) > 0 && !forceBip && rng.Intn(6) == 0 {
 				id = ids[rng.Intn(len(ids))] // a file name that is already taken
 				r["idTaken"] = true
 			}
@@ -339,10 +372,26 @@ func runSequence(seq int) {
 			if rng.Intn(5) == 0 {
 				o.Temp = true
 			}
+			if forceBip && si.typ == wallet.WalletTypeBip44 {
+				o.Temp, o.Encrypt, o.Password = false, true, []byte(pws[rng.Intn(2)])
+			}
 			r["op"], r["id"], r["wtype"], r["temp"] = "create", id, si.typ, o.Temp
 			_, opErr = s.CreateWallet(id, o)
 			if opErr != nil && !wasAgain && !r["idTaken"].(bool) && rng.Intn(2) == 0 {
 				again = lastSeed // refused (a seed or key that is already there): the same request is made again next
+			}
+			if forceBip {
+				// the wallet of the scripted steps: the new one, or (its seed was taken) a loaded encrypted bip44 wallet
+				bipID = ""
+				if opErr == nil && si.typ == wallet.WalletTypeBip44 {
+					bipID = id
+				} else {
+					for _, x := range ids {
+						if seedOf[x].typ == wallet.WalletTypeBip44 && pwOf[x] != "" && !unloaded[x] {
+							bipID = x
+						}
+					}
+				}
 			}
 			if opErr == nil {
 				seedOf[id] = si
@@ -383,6 +432,13 @@ func runSequence(seq int) {
 				ext, chg, _ := reference(si, 12, 6)
 				for _, a := range append(ext, chg...) {
 					if rng.Intn(3) == 0 {
+						act[a] = true
+					}
+				}
+				if chgOnly {
+					// activity on the change chain only (the scan reports external addresses: none are found)
+					act = map[string]bool{}
+					for _, a := range chg {
 						act[a] = true
 					}
 				}
@@ -474,6 +530,9 @@ func runSequence(seq int) {
 			onChange := known && si.typ == wallet.WalletTypeBip44 && rng.Intn(2) == 0
 			if known && si.typ == wallet.WalletTypeCollection && kind == "addr" {
 				kind = "label"
+			}
+			if forcedKind != "" {
+				kind, onChange = forcedKind, forcedChg == 1
 			}
 			r["op"], r["id"], r["k"], r["updKind"], r["onChange"] = "update", id, n, kind, onChange
 			opErr = s.Update(id, func(w wallet.Wallet) error {
